@@ -241,6 +241,7 @@ func genC17(c *Ctx) {
 	}
 	c17Tables(c)
 	c17FloatTies(c)
+	c17CtorTies(c)
 	c17MatrixTies(c)
 	c17RandTies(c)
 	c17UniformInterleavings(c)
